@@ -30,7 +30,7 @@ def parse_csv(data, header):
     return set(rows), probs
 
 
-def run_both(w, d, nblk, coin='bitcoin', start=None, trace=False, stale=False):
+def run_both(w, d, nblk, coin='bitcoin', start=None, trace=False, stale=False, timeout=60):
     out = {}
     for cb, pre, header in (('unspentcsvdump', 'unspent', 'txid;indexOut;height;value;address'), ('balances', 'balances', 'address;balance')):
         tr = w.sub('trace') if trace else None
@@ -41,7 +41,7 @@ def run_both(w, d, nblk, coin='bitcoin', start=None, trace=False, stale=False):
             for n in ('unspent.csv.tmp', 'balances.csv.tmp'):
                 with open(os.path.join(dump, n), 'wb') as f:
                     f.write(junk)
-        r = run.run_parser(d.path, cb, dump=dump, coin=coin, start=start, trace=tr, skip=SKIP)
+        r = run.run_parser(d.path, cb, dump=dump, coin=coin, start=start, trace=tr, skip=SKIP, timeout=timeout)
         r.files = {k: v for k, v in r.files.items() if not k.endswith('.tmp')}
         name = '%s-%d-%d.csv' % (pre, start or 0, nblk - 1)
         rows, probs = (set(), ['%s missing (exit %d, have %s) %s' % (name, r.rc, r.listing, r.stderr[-200:])]) if name not in r.files else parse_csv(r.files[name], header)
@@ -181,5 +181,37 @@ def main(ck, tier, w, pid='C07'):
         if probs:
             ck.violation('; '.join(probs), {'scenario': {'transactions': nh, 'blocks': nb, 'start': start, 'seed': str(j[0])},
                                             'observed': r.brief(), 'trace_verdict': v, 'tags': []})
+    if pid == 'C08' and not quick:
+        # more than 2^20 unspent outputs over a handful of addresses (the real UTXO set has tens of millions)
+        r0 = random.Random('%d-huge' % seed)
+        spks = [btc.p2pkh(r0.randbytes(20)) for _ in range(7)]
+        blocks, prev = [], b'\0' * 32
+        for h in range(45):
+            txs = [btc.coinbase(h, None, outs=[{'val': 0, 'spk': b'\x6a\x01x'}])]
+            for k in range(10 if h else 0):
+                txs.append({'ver': 1, 'ins': [{'txid': r0.randbytes(32), 'idx': 0, 'sig': b'', 'seq': 0}],
+                            'outs': [{'val': r0.randrange(10 ** 6), 'spk': spks[(j * 7 + k + h) % 7]} for j in range(3000)], 'lock': h * 100 + k})
+            from lib import datadir
+            b = datadir.mk_block(prev, txs, t=1300000000 + h, nonce=h)
+            blocks.append(b)
+            prev = b['hash']
+        d = utxohist.write_chain(w, blocks, nfiles=3)
+        out = run_both(w, d, len(blocks), timeout=1200)
+        rb, brows, bprobs, _ = out['balances']
+        ru, urows, uprobs, _ = out['unspentcsvdump']
+        ck.evals(2)
+        ck.distinct(('huge', len(urows)))
+        ck.cov['huge_unspent_set_rows'] = len(urows)
+        exp = ref.utxo_expected(list(enumerate(blocks)), 'bitcoin')
+        probs = list(bprobs) + list(uprobs)
+        if not probs and urows != ref.unspent_rows(exp):
+            probs.append('unspent rows of the 1.3M-output chain differ from the reference')
+        if not probs and brows != ref.balances_rows(exp):
+            probs.append('balances of the 1.3M-output chain differ: %s vs %s' % (sorted(brows)[:3], sorted(ref.balances_rows(exp))[:3]))
+        if not probs and brows != aggregate(urows):
+            probs.append('balances is not the aggregation of the unspent dump (1.3M outputs)')
+        if probs:
+            ck.violation('; '.join(probs), {'scenario': '45 blocks, 440 transactions x 3000 outputs, 7 addresses', 'observed': rb.brief(), 'tags': []})
+
     ck.assumptions += ['total value per address below 2^64', 'forward references whose txids would depend on each other cyclically '
                        'cannot exist as real transactions and are skipped (counted in the evidence)']
